@@ -16,6 +16,11 @@ def p_kernels(ctx):
     run_kernels(ctx, "safety")
 
 
+def p_merge_bytes(ctx):
+    from ._merge import p_merge_bytes as f
+    f(ctx)
+
+
 def p_thrift(ctx):
     from ._thrift import p_thrift as f
     f(ctx)
@@ -25,4 +30,4 @@ def run(ctx):
     from ._callsites import p_callsites
     from ._generic import optional_parts
     extra = optional_parts(("_hybrid", "p_hybrid"), ("_encoders", "p_encoders"), ("_speedups", "p_speedups"), ("_assembly", "p_assembly"))
-    return run_property(ctx, "proof", EXPLANATION, p_parts=[p_kernels, p_callsites, p_thrift] + extra, b_modules=[])
+    return run_property(ctx, "proof", EXPLANATION, p_parts=[p_kernels, p_callsites, p_thrift, p_merge_bytes] + extra, b_modules=[])
